@@ -6,7 +6,8 @@
 typedef struct { unsigned char *buf; size_t len, cap, pos; long fault; } mstream;
 static ssize_t ms_write(void *c, const char *p, size_t n) {
   mstream *m = c; size_t room, k;
-  if (m->fault >= 0) { room = (size_t)m->fault > m->len ? (size_t)m->fault - m->len : 0; if (n > room) { k = room; memcpy(m->buf + m->len, p, k); m->len += k; return k ? (ssize_t)k : 0; } }
+  if (m->fault >= 0) { room = (size_t)m->fault > m->len ? (size_t)m->fault - m->len : 0;
+    if (n > room) { k = room; if (m->len + k > m->cap) { m->cap = 2 * (m->len + k) + 64; m->buf = realloc(m->buf, m->cap); } memcpy(m->buf + m->len, p, k); m->len += k; return k ? (ssize_t)k : 0; } }
   if (m->len + n > m->cap) { m->cap = 2 * (m->len + n) + 64; m->buf = realloc(m->buf, m->cap); }
   memcpy(m->buf + m->len, p, n); m->len += n; return n;
 }
